@@ -117,7 +117,13 @@ def run_prefix(factory, prefix, labels=None):
     return h, trace
 
 
-def explore(factory, acc: core.Acc, *, depth, case, params, max_dev=None, prune=True, finish=True, max_exec=None, seen=None, root=()):
+def _all_known(v, known):
+    import fnmatch
+
+    return bool(known) and all(any(fnmatch.fnmatchcase(sig, k) for k in known) for sig, _ in v)
+
+
+def explore(factory, acc: core.Acc, *, depth, case, params, max_dev=None, prune=True, finish=True, max_exec=None, seen=None, root=(), known=()):
     """Depth-bounded DFS from `root` (a choice prefix).  Every maximal path is an *execution*; at its end `finish()` runs.
     max_dev: bound on the number of deviations (non-default choices as judged by harness.is_deviation) per execution.
     prune: do not expand a canonical state again at an equal or greater depth / deviation count."""
@@ -135,7 +141,9 @@ def explore(factory, acc: core.Acc, *, depth, case, params, max_dev=None, prune=
                     acc.violation(sig, case, dict(params, choices=list(prefix)), dict(detail=detail, trace=trace))
                 acc.case(key=(repr(sorted(params.items())), prefix), outcome="violation-midway")
                 n_exec += 1
-                continue
+                if not _all_known(v, known):
+                    continue
+                # only recorded known findings showed up: keep exploring below this state so that they do not mask anything else
             expand = getattr(h, "depth_used", len(prefix)) < depth
             menu = h.menu() if expand else []
             if expand and prune:
